@@ -19,14 +19,16 @@ TIE_PART = 'validator_layout'
 TIE_THEOREMS = ['Sbepp.Schema.LayoutTie.' + t for t in (
     'validate_field_offset_tie', 'validate_element_offset_tie', 'validate_block_length_tie',
     'composite_loop_tie', 'validate_encoding_composite_tie', 'members_loop_tie', 'validate_members_tie',
-    'nowrap_needed', 'wrap_accepts_overlap',
-    'extracted_field_offset_ok', 'extracted_field_offset_next', 'extracted_field_offset_below_min',
+    'overflow_witness_extracted', 'overflow_witness_model', 'overflow_witness_twin',
+    'extracted_field_offset_ok', 'extracted_field_offset_below_min', 'extracted_field_offset_overflow',
     'extracted_field_offset_error', 'extracted_element_offset_const', 'extracted_element_offset_nonconst',
-    'extracted_element_offset_ok', 'extracted_element_offset_below_min', 'extracted_block_length_ok',
-    'extracted_block_length_below_min', 'extracted_block_length_error',
-    'compLeaves_step', 'vElementOffset_step', 'vFields_step', 'vLevelValues_step',
-    'compLeaves_skeleton', 'fieldLeaves_skeleton', 'composite_size_extracted', 'level_layout_extracted',
-    'message_layout_extracted')]
+    'extracted_element_offset_ok', 'extracted_element_offset_below_min', 'extracted_element_offset_overflow',
+    'extracted_block_length_ok', 'extracted_block_length_below_min', 'extracted_block_length_error',
+    'compLeaves_step', 'vElementOffset_step', 'vElementOffset_ok_iff', 'vFields_step', 'vLevelValues_step',
+    'compLeaves_skeleton', 'fieldLeaves_skeleton', 'compositeTyped_of_ok', 'membersTyped_of_ok',
+    'compositeLoop_bounded', 'membersLoop_bounded', 'composite_size_extracted', 'level_layout_extracted',
+    'message_layout_extracted', 'compLeaves_no_wrap', 'fieldLeaves_no_wrap', 'accepted_composite_no_wrap',
+    'accepted_level_no_wrap')]
 THEOREMS += TIE_THEOREMS
 
 
